@@ -36,7 +36,7 @@ fn meta() -> Meta {
     Meta {
         id: "C16",
         level: "exploration",
-        rule: "(N) basename {app, absent, empty} x discriminant {absent, d, empty, v1.2} x start time on/off x suffix {log, absent, log.txt} x naming (6 schemes + no rotation) x {no cleanup, every rotated file compressed}, history W W T W R W; (P) 10 path shapes x {no rotation, Numbers}; (L) every history up to depth 4 (quick) / 5 (thorough) over {W20, W5, R, T, Restart(append), Restart(no append)} x naming x cleanup {Never, KeepLogFiles(1), KeepCompressedFiles(1), KeepLogAndCompressedFiles(1,1)} with all 16 selector combinations queried after every operation; (S) every history up to depth 5 / 6 over {W20, W5, R, Restart(append), Restart(no append), remove-link-target-and-restart} x naming (also with a start time in the name) x {Direct, buffered} with a symlink; distinct_nontrivial = distinct (sub-check, configuration, history) cases with at least two files in the directory; (N) also with a dotted discriminant, a dotted suffix and with every rotated file compressed; (B) rotate() before or after log_to_file() with the start-time setting left at its default gives the same start-time-free names; (B2) a FileSpec whose path was looked at still obeys a later suppress_timestamp() / use_timestamp(true); (B) also rotate(..).o_rotate(None); (P) also with the oldest rotated file replaced by a symbolic link to its new place",
+        rule: "(N) basename {app, absent, empty, app_ (ends with the separator character)} x discriminant {absent, d, empty, v1.2} x start time on/off x suffix {log, absent, log.txt} x naming (6 schemes + no rotation) x {no cleanup, every rotated file compressed}, history W W T W R W; (P) 10 path shapes x {no rotation, Numbers}; (L) every history up to depth 4 (quick) / 5 (thorough) over {W20, W5, R, T, Restart(append), Restart(no append)} x naming x cleanup {Never, KeepLogFiles(1), KeepCompressedFiles(1), KeepLogAndCompressedFiles(1,1)} with all 16 selector combinations queried after every operation; (S) every history up to depth 5 / 6 over {W20, W5, R, Restart(append), Restart(no append), remove-link-target-and-restart} x naming (also with a start time in the name) x {Direct, buffered} with a symlink; distinct_nontrivial = distinct (sub-check, configuration, history) cases with at least two files in the directory; (N) also with a dotted discriminant, a dotted suffix and with every rotated file compressed; (B) rotate() before or after log_to_file() with the start-time setting left at its default gives the same start-time-free names; (B2) a FileSpec whose path was looked at still obeys a later suppress_timestamp() / use_timestamp(true); (B) also rotate(..).o_rotate(None); (P) also with the oldest rotated file replaced by a symbolic link to its new place",
         assumptions: vec![
             "grammar of file names and family membership written from the FileSpec / Naming documentation (family.rs)".into(),
             "selector semantics: plain = rotated files with the configured suffix (direct namings: including the current file), r_current = file with infix rCURRENT, compressed = .gz files, custom_current(s) = file with infix s".into(),
@@ -61,7 +61,7 @@ struct NCase {
 
 fn ncases() -> Vec<NCase> {
     let mut v = Vec::new();
-    for basename in [Some("app"), None, Some("")] {
+    for basename in [Some("app"), None, Some(""), Some("app_")] {
         for discr in [None, Some("d"), Some(""), Some("v1.2")] {
             for starttime in [false, true] {
                 for suffix in [Some("log"), None, Some("log.txt")] {
@@ -592,6 +592,7 @@ fn parts_vector(c: &NCase) -> String {
         match c.basename {
             None => "absent",
             Some("") => "empty",
+            Some(b) if b.ends_with('_') => "trailing-underscore",
             _ => "present",
         },
         match c.discr {
